@@ -34,7 +34,7 @@ class XResult:
 
 def _run_one(target: str, timeout: int, per_path: int, env_extra: Dict[str, str]) -> XResult:
     env = dict(os.environ)
-    env["PYTHONPATH"] = "/verif:/verif/.scratch"
+    env["PYTHONPATH"] = "/verif:/verif/.scratch" + (":" + os.environ["VERIF_REPO"] if os.environ.get("VERIF_REPO") else "")
     env["PYTHONDONTWRITEBYTECODE"] = "1"
     side = f"/verif/.scratch/xh_{os.getpid()}_{abs(hash(target)) % 10**8}_{time.time_ns()}.jsonl"
     os.makedirs("/verif/.scratch", exist_ok=True)
@@ -114,7 +114,7 @@ def replay_call(module: str, call: str) -> Any:
     """evaluate the counterexample call concretely (no CrossHair) in a fresh interpreter; returns the python value"""
     code = f"import json, {module} as M\nr = eval({call!r}, vars(M))\nprint('@@R@@' + json.dumps(bool(r)))"
     env = dict(os.environ)
-    env["PYTHONPATH"] = "/verif:/verif/.scratch"
+    env["PYTHONPATH"] = "/verif:/verif/.scratch" + (":" + os.environ["VERIF_REPO"] if os.environ.get("VERIF_REPO") else "")
     p = subprocess.run([PY, "-c", code], capture_output=True, text=True, env=env, timeout=300, cwd="/verif")
     if "@@R@@" in p.stdout:
         return json.loads(p.stdout.split("@@R@@", 1)[1])
